@@ -25,20 +25,20 @@ func init() {
 		Run: runC01,
 		Mutants: []Mutant{
 			{Name: "assign-skips-sharing-loop", File: "internal/allocator/allocator.go",
-				Old: "\t\tif err := a.checkSharing(svcKey, ip.String(), ports, sk); err != nil {\n\t\t\treturn err\n\t\t}\n\t}\n\n\t// Either the IP is entirely unused",
-				New: "\t\tif err := a.checkSharing(svcKey, ip.String(), ports, sk); err != nil {\n\t\t\tbreak\n\t\t}\n\t}\n\n\t// Either the IP is entirely unused",
+				Old:    "\t\tif err := a.checkSharing(svcKey, ip.String(), ports, sk); err != nil {\n\t\t\treturn err\n\t\t}\n\t}\n\n\t// Either the IP is entirely unused",
+				New:    "\t\tif err := a.checkSharing(svcKey, ip.String(), ports, sk); err != nil {\n\t\t\tbreak\n\t\t}\n\t}\n\n\t// Either the IP is entirely unused",
 				Expect: "GUARD-SHARE"},
 			{Name: "rekey-branch-skips-port-check", File: "internal/allocator/allocator.go",
-				Old: "\t\t\tif len(otherSvcs) > 0 {\n\t\t\t\treturn fmt.Errorf(\"can't change sharing key for %q, address also in use by %s\", svc, strings.Join(otherSvcs, \",\"))\n\t\t\t}\n",
-				New: "\t\t\tif len(otherSvcs) > 0 {\n\t\t\t\treturn fmt.Errorf(\"can't change sharing key for %q, address also in use by %s\", svc, strings.Join(otherSvcs, \",\"))\n\t\t\t}\n\t\t\treturn nil\n",
+				Old:    "\t\t\tif len(otherSvcs) > 0 {\n\t\t\t\treturn fmt.Errorf(\"can't change sharing key for %q, address also in use by %s\", svc, strings.Join(otherSvcs, \",\"))\n\t\t\t}\n",
+				New:    "\t\t\tif len(otherSvcs) > 0 {\n\t\t\t\treturn fmt.Errorf(\"can't change sharing key for %q, address also in use by %s\", svc, strings.Join(otherSvcs, \",\"))\n\t\t\t}\n\t\t\treturn nil\n",
 				Expect: "SHARE-BODY"},
 			{Name: "allocate-writes-allocated", File: "internal/allocator/allocator.go",
-				Old: "\tpinnedPools := a.pinnedPoolsForService(svc)\n",
-				New: "\tpinnedPools := a.pinnedPoolsForService(svc)\n\tdelete(a.sharingKeyForIP, svcKey)\n",
+				Old:    "\tpinnedPools := a.pinnedPoolsForService(svc)\n",
+				New:    "\tpinnedPools := a.pinnedPoolsForService(svc)\n\tdelete(a.sharingKeyForIP, svcKey)\n",
 				Expect: "OWN-ALLOC"},
 			{Name: "empty-backend-key-at-one-site", File: "controller/service.go",
-				Old: "ips, err := c.ips.AllocateFromPool(key, svc, serviceIPFamily, desiredPool, k8salloc.Ports(svc), SharingKey(svc), k8salloc.BackendKey(svc))",
-				New: "ips, err := c.ips.AllocateFromPool(key, svc, serviceIPFamily, desiredPool, k8salloc.Ports(svc), SharingKey(svc), \"\")",
+				Old:    "ips, err := c.ips.AllocateFromPool(key, svc, serviceIPFamily, desiredPool, k8salloc.Ports(svc), SharingKey(svc), k8salloc.BackendKey(svc))",
+				New:    "ips, err := c.ips.AllocateFromPool(key, svc, serviceIPFamily, desiredPool, k8salloc.Ports(svc), SharingKey(svc), \"\")",
 				Expect: "ARGS"},
 			{Name: "sharingok-drops-backend-compare", File: "internal/allocator/allocator.go",
 				Old: "\tif existing.backend != new.backend {", New: "\tif existing.backend != new.backend && existing.sharing == \"\" {",
@@ -50,20 +50,21 @@ func init() {
 				Old: "ok && curSvc != svc {\n\t\t\t\treturn fmt.Errorf(\"port %s is already in use", New: "ok && curSvc == svc {\n\t\t\t\treturn fmt.Errorf(\"port %s is already in use",
 				Expect: "SHARE-BODY"},
 			{Name: "rekey-without-reprocess", File: "controller/main.go",
-				Old: "\t\tsyncStateRes = controllers.SyncStateReprocessAll\n\t}\n\n\tif reflect.DeepEqual(svcRo, svc) {",
-				New: "\t}\n\n\tif reflect.DeepEqual(svcRo, svc) {",
+				Old:    "\t\tsyncStateRes = controllers.SyncStateReprocessAll\n\t}\n\n\tif reflect.DeepEqual(svcRo, svc) {",
+				New:    "\t}\n\n\tif reflect.DeepEqual(svcRo, svc) {",
 				Expect: "REKEY-REPROCESS"},
 			{Name: "ports-drop-protocol", File: "internal/allocator/k8salloc/k8salloc.go",
 				Old: "Proto: string(port.Protocol),", New: "Proto: \"TCP\",", Expect: "FIELDMAP"},
 			{Name: "sharing-key-freed-while-tenants-remain", File: "internal/allocator/allocator.go",
-				Old: "\t\tif len(a.portsInUse[ip.String()]) == 0 {\n\t\t\tdelete(a.portsInUse, ip.String())\n\t\t\tdelete(a.sharingKeyForIP, ip.String())\n\t\t}",
-				New: "\t\tif len(a.portsInUse[ip.String()]) == 0 {\n\t\t\tdelete(a.portsInUse, ip.String())\n\t\t}\n\t\tdelete(a.sharingKeyForIP, ip.String())",
+				Old:    "\t\tif len(a.portsInUse[ip.String()]) == 0 {\n\t\t\tdelete(a.portsInUse, ip.String())\n\t\t\tdelete(a.sharingKeyForIP, ip.String())\n\t\t}",
+				New:    "\t\tif len(a.portsInUse[ip.String()]) == 0 {\n\t\t\tdelete(a.portsInUse, ip.String())\n\t\t}\n\t\tdelete(a.sharingKeyForIP, ip.String())",
 				Expect: "KEY-LIFETIME"},
 		},
 	})
 }
 
 func runC01(p *chk.Prog, r *chk.Report) {
+	assignCommitsRule(p, r)
 	// ---- OWN-ALLOC ---------------------------------------------------------
 	own := r.Rule("OWN-ALLOC", "D ownership", "Allocator.{allocated,sharingKeyForIP,portsInUse,servicesOnIP} are written (assigned, indexed, deleted, or handed out) only in (*Allocator).assign and (*Allocator).Unassign; raw assign is called only from Assign and SetPools", 10)
 	const A = "(*internal/allocator.Allocator)."
@@ -111,7 +112,10 @@ func c01GuardShare(p *chk.Prog, r *chk.Report) {
 	for _, rs := range loops {
 		guard := g.GErrNil(true, "RECV.checkSharing(K, IP.String(), PORTS, SK)",
 			chk.H("K", isParam(f, "svcKey")), chk.H("IP", rangeVal(f, rs)), chk.H("PORTS", isParam(f, "ports")),
-			chk.H("SK", definedBy(g, "&key{sharing: A, backend: B}", chk.H("A", isParam(f, "sharingKey")), chk.H("B", isParam(f, "backendKey")))))
+			chk.H("SK", func(e ast.Expr) bool {
+				return definedBy(g, "&key{sharing: A, backend: B}", chk.H("A", isParam(f, "sharingKey")), chk.H("B", isParam(f, "backendKey")))(e) ||
+					definedBy(g, "&K", chk.H("K", definedBy(g, "key{sharing: A, backend: B}", chk.H("A", isParam(f, "sharingKey")), chk.H("B", isParam(f, "backendKey")))))(e)
+			}))
 		if w := forallBefore(f, g, rs, guard, site); w == "" {
 			ok = true
 		} else {
@@ -122,9 +126,12 @@ func c01GuardShare(p *chk.Prog, r *chk.Report) {
 	// the allocation stored is built from the same ips / key / ports
 	al := call.Args[1]
 	x.Check("Assign:alloc.ips-is-checked-ips", site.Pos(),
-		definedBy(g, "&alloc{ips: IPS, key: *SK, pool: P.Name}", chk.H("IPS", ips),
-			chk.H("SK", definedBy(g, "&key{sharing: A, backend: B}")),
-			chk.H("P", definedBy(g, "poolFor(_, _)")))(al) && len(assignsTo(f, f.ParamNamed("ips"))) == 0,
+		(definedBy(g, "&alloc{ips: IPS, key: *SK, pool: P.Name}", chk.H("IPS", ips),
+			chk.H("SK", definedBy(g, "&key{sharing: A, backend: B}", chk.H("A", isParam(f, "sharingKey")), chk.H("B", isParam(f, "backendKey")))),
+			chk.H("P", definedBy(g, "poolFor(_, IPS)", chk.H("IPS", ips))))(al) ||
+			definedBy(g, "&alloc{ips: IPS, key: K, pool: P.Name}", chk.H("IPS", ips),
+				chk.H("K", definedBy(g, "key{sharing: A, backend: B}", chk.H("A", isParam(f, "sharingKey")), chk.H("B", isParam(f, "backendKey")))),
+				chk.H("P", definedBy(g, "poolFor(_, IPS)", chk.H("IPS", ips))))(al)) && len(assignsTo(f, f.ParamNamed("ips"))) == 0,
 		"", "the allocation handed to a.assign is not built from the checked ips, the checked key and the owning pool")
 	x.Check("Assign:assign-key", site.Pos(), isParam(f, "svcKey")(call.Args[0]), "", "a.assign is keyed by something other than svcKey")
 	// ports: alloc.ports is a copy of ports
@@ -152,7 +159,9 @@ func c01ShareBody(p *chk.Prog, r *chk.Report) {
 	ip := isParam(f, "ip")
 	existing := definedBy(g, "RECV.sharingKeyForIP[IP]", chk.H("IP", ip))
 	noKey := g.GPat(true, "E == nil", chk.H("E", existing))
-	shareOK := g.GErrNil(true, "sharingOK(E, SK)", chk.H("E", existing), chk.H("SK", isParam(f, "sk")))
+	// the compatibility test: the call of sharingOK, or its four comparisons spelt out at this place
+	shareOK := chk.GOr(g.GErrNil(true, "sharingOK(E, SK)", chk.H("E", existing), chk.H("SK", isParam(f, "sk"))),
+		chk.GAnd(c01SharingComparisons(g, existing, isParam(f, "sk"))...))
 	// otherSvcs: built by ranging over servicesOnIP[ip] and appending tenants != svc
 	var others types.Object
 	for _, rs := range f.RangeLoops(func(e ast.Expr) bool {
@@ -282,18 +291,20 @@ func c01OthersLoopOK(f *chk.Fn, g *chk.Graph, others types.Object) bool {
 // SHAREOK: sharingOK and BackendKey.
 func c01ShareOK(p *chk.Prog, r *chk.Report) {
 	x := r.Rule("SHAREOK", "B path", "sharingOK returns nil only behind: existing key non-empty, new key non-empty, sharing keys equal, backend keys equal; k8salloc.BackendKey returns the pod selector exactly under ExternalTrafficPolicy == Local and \"\" otherwise", 6)
-	f := need(x, p, allocPkg, "", "sharingOK")
+	f := p.LookupFunc(allocPkg, "", "sharingOK")
+	if f == nil {
+		// the helper was folded into its only user: the four comparisons are decided where they are made
+		c01SharingInlined(p, x)
+	}
 	if f != nil {
 		g := f.Graph()
 		ex, nw := isParamIdx(f, 0), isParamIdx(f, 1)
+		cmp := c01SharingComparisons(g, ex, nw)
 		guards := []struct {
 			name string
 			g    chk.Guard
 		}{
-			{"existing.sharing!=\"\"", g.GPat(false, `E.sharing == ""`, chk.H("E", ex))},
-			{"new.sharing!=\"\"", g.GPat(false, `N.sharing == ""`, chk.H("N", nw))},
-			{"sharing-equal", g.GPat(true, "E.sharing == N.sharing", chk.H("E", ex), chk.H("N", nw))},
-			{"backend-equal", g.GPat(true, "E.backend == N.backend", chk.H("E", ex), chk.H("N", nw))},
+			{"existing.sharing!=\"\"", cmp[0]}, {"new.sharing!=\"\"", cmp[1]}, {"sharing-equal", cmp[2]}, {"backend-equal", cmp[3]},
 		}
 		n := 0
 		for _, rt := range returnsOf(g) {
@@ -565,4 +576,50 @@ func stickyReprocess(f *chk.Fn, g *chk.Graph, from chk.Site, resVar types.Object
 		}
 		return false
 	}}).Run()
+}
+
+// c01SharingComparisons: the four comparisons that make two sharing keys compatible, over the given key expressions.
+func c01SharingComparisons(g *chk.Graph, ex, nw func(ast.Expr) bool) []chk.Guard {
+	E, N := chk.H("E", ex), chk.H("N", nw)
+	return []chk.Guard{
+		g.GPat(false, `E.sharing == ""`, E),
+		g.GPat(false, `N.sharing == ""`, N),
+		chk.GOr(g.GPat(true, "E.sharing == N.sharing", E, N), g.GPat(true, "N.sharing == E.sharing", E, N)),
+		chk.GOr(g.GPat(true, "E.backend == N.backend", E, N), g.GPat(true, "N.backend == E.backend", E, N)),
+	}
+}
+
+// c01SharingInlined decides SHAREOK's comparisons inside checkSharing when sharingOK no longer exists: a nil return for
+// an address with an existing key needs each comparison (or the sole-tenant exemption).
+func c01SharingInlined(p *chk.Prog, x *chk.R) {
+	f := need(x, p, allocPkg, "Allocator", "checkSharing")
+	if f == nil {
+		return
+	}
+	g := f.Graph()
+	ip := isParam(f, "ip")
+	existing := definedBy(g, "RECV.sharingKeyForIP[IP]", chk.H("IP", ip))
+	noKey := g.GPat(true, "E == nil", chk.H("E", existing))
+	soleTenant := chk.GNever()
+	for _, rs := range f.RangeLoops(func(e ast.Expr) bool {
+		return f.MatchWith("RECV.servicesOnIP[IP]", e, chk.H("IP", ip)) != nil
+	}) {
+		apps := g.Find(func(n ast.Node) bool {
+			return chk.InBody(rs, n) && f.IsAssignPat("O", "append(O, T)", chk.H("T", rangeKey(f, rs)))(n)
+		})
+		if len(apps) == 1 {
+			soleTenant = g.GPat(false, "len(O) > 0", chk.H("O", f.IsObj(f.ObjOf(apps[0].Node.(*ast.AssignStmt).Lhs[0]))))
+		}
+	}
+	nilRet := func(n ast.Node) bool {
+		rs, ok := n.(*ast.ReturnStmt)
+		return ok && len(rs.Results) == 1 && f.IsNilLit(rs.Results[0])
+	}
+	names := []string{"existing.sharing!=\"\"", "new.sharing!=\"\"", "sharing-equal", "backend-equal"}
+	for i, c := range c01SharingComparisons(g, existing, isParam(f, "sk")) {
+		w := (&chk.Walk{G: g, Hit: nilRet, Cut: func(b *cfgBlock, k int) bool {
+			return g.EdgeImplies(b, k, chk.GAnyOf(noKey, c, soleTenant))
+		}}).Run()
+		x.Check("sharingOK(folded into checkSharing):return-nil:"+names[i], posOf(w, f), !w.Found, "", "checkSharing can return nil for an address shared with other services without the comparison "+names[i]+": "+describe(f, w))
+	}
 }
